@@ -257,7 +257,11 @@ func siteMatches(p *Program, pat string, in ssa.Instruction) (string, bool) {
 		_, short := ContractName(callee)
 		full := fullName(callee)
 		if f[1] != short && f[1] != full && f[1] != callee.Name() {
-			return "", false
+			// a closure called through the local it was assigned to (`generateExport := func...`): by that name,
+			// which does not shift when an unrelated closure is added
+			if _, isClosure := c.Call.Value.(*ssa.MakeClosure); !isClosure || valuePath(c.Call.Value) != f[1] {
+				return "", false
+			}
 		}
 		for _, cond := range f[2:] {
 			// argN=pkg.Const
@@ -654,7 +658,7 @@ func valuePath(v ssa.Value) string {
 	case *ssa.Field:
 		st := x.X.Type().Underlying().(*types.Struct)
 		return valuePath(x.X) + "." + st.Field(x.Field).Name()
-	case *ssa.MakeMap, *ssa.MakeSlice:
+	case *ssa.MakeMap, *ssa.MakeSlice, *ssa.MakeClosure:
 		// a freshly made map/slice is known by the local it was assigned to
 		if refs := v.Referrers(); refs != nil {
 			for _, r := range *refs {
